@@ -315,7 +315,9 @@ class Verdict:
             m = k.get("match", {})
             ok = True
             for f, want in m.items():
-                have = desc.get(f)
+                have = desc
+                for part in f.split("."):
+                    have = have.get(part) if isinstance(have, dict) else None
                 if isinstance(want, list) and isinstance(have, list):
                     if sorted(want) != sorted(have):
                         ok = False
